@@ -19,6 +19,7 @@
 //! rules (no leading zero octet, not longer than the type) unconditionally.
 
 pub mod refc;
+mod surface;
 
 use crypto_bigint::{ArrayDecoding, ArrayEncoding, ByteArray, Encoding, Uint};
 use der::asn1::{Any, AnyRef, UintRef};
@@ -31,7 +32,7 @@ use vmodel::*;
 pub fn spec() -> PropSpec {
     PropSpec {
         id: "C18",
-        rule: "value cases: a fixed-width value built from an explicit big-endian magnitude (length edge-biased to 0,1,2, capacity-1, capacity, limb boundaries +-1, the DER/RLP length-form boundaries 55/56,127/128,255/256; top octet from {01,7f,80,ff,81,7e,40,c0,random}; body zeros / ff / pattern / random), the constants 0,1,7f,80,ff,100,2^(B-1)-1,2^(B-1),2^B-1,2^(B-8)-1,2^(B-8), or gen::limbs / 2^k+-1 / uniform; every encode form is compared with the reference canonical encoding and every decode route must return the value. byte-string cases: the canonical encoding of a magnitude of 0..=capacity+4 octets (so also too long for the type) mutated by one of: nothing, extra leading 00, leading ff / dropped sign octet (negative), wrong tag, truncation, trailing octets, length field +-1, non-minimal long-form length, indefinite / reserved / 5-octet length, empty contents / empty input, arbitrary octets, arbitrary contents behind a correct header (RLP: leading zero octets, 0x81 prefix for an octet < 0x80, long-form prefix for a short payload, zero-padded long-form length, truncation, trailing octets, list prefix, prefix length +-1, degenerate one/two-octet inputs, arbitrary octets, arbitrary payload); every decode route must agree with the reference strict decoder (Ok(v) iff the input is the canonical encoding of a v that fits, else Err, never a panic). non-trivial: value cases - the DER contents / RLP payload length is within +-1 of the type's octet capacity, or the top (most significant non-zero) octet is >= 0x80; byte-string cases - the number of contents / payload octets the framing announces-and-holds (or, when the framing cannot be followed, the input length minus 2 for DER / minus 1 for RLP) is in capacity-1 ..= capacity+2, or the first contents octet (after one 00 sign octet, if present) is >= 0x80. distinct by the value limbs / the input octets (per width).",
+        rule: "value cases: a fixed-width value built from an explicit big-endian magnitude (length edge-biased to 0,1,2, capacity-1, capacity, limb boundaries +-1, the DER/RLP length-form boundaries 55/56,127/128,255/256; top octet from {01,7f,80,ff,81,7e,40,c0,random}; body zeros / ff / pattern / random), the constants 0,1,7f,80,ff,100,2^(B-1)-1,2^(B-1),2^B-1,2^(B-8)-1,2^(B-8), or gen::limbs / 2^k+-1 / uniform; every encode form is compared with the reference canonical encoding and every decode route must return the value. byte-string cases: the canonical encoding of a magnitude of 0..=capacity+4 octets (so also too long for the type) mutated by one of: nothing, extra leading 00, leading ff / dropped sign octet (negative), wrong tag, truncation, trailing octets, length field +-1, non-minimal long-form length, indefinite / reserved / 5-octet length, empty contents / empty input, arbitrary octets, arbitrary contents behind a correct header (RLP: leading zero octets, 0x81 prefix for an octet < 0x80, long-form prefix for a short payload, zero-padded long-form length, truncation, trailing octets, list prefix, prefix length +-1, degenerate one/two-octet inputs, arbitrary octets, arbitrary payload); every decode route must agree with the reference strict decoder (Ok(v) iff the input is the canonical encoding of a v that fits, else Err, never a panic). non-trivial: value cases - the DER contents / RLP payload length is within +-1 of the type's octet capacity, or the top (most significant non-zero) octet is >= 0x80; byte-string cases - the number of contents / payload octets the framing announces-and-holds (or, when the framing cannot be followed, the input length minus 2 for DER / minus 1 for RLP) is in capacity-1 ..= capacity+2, or the first contents octet (after one 00 sign octet, if present) is >= 0x80. surface/* sub-checks: the same value / byte-string cases (same rules; the byte string is re-tagged) through IMPLICIT / EXPLICIT context-specific fields, OPTIONAL, fixed-size arrays, and the Box / Option / list adaptors of the rlp crate; encode-only RLP at further widths. distinct by the value limbs / the input octets (per width).",
         assumptions: vec![
             "the reference DER / RLP codecs in props/c18/src/refc.rs follow X.690 and the RLP definition (they are cross-checked against each other: strict_decode(reference_encode(v)) == v in every value case)".into(),
             "RLP item framing (prefix forms, extent) is owned by the rlp crate 0.6.1: non-canonical framing around a valid payload may be accepted or rejected; this is recorded in the class histogram and not asserted".into(),
@@ -913,5 +914,6 @@ fn subchecks(_ctx: &Ctx) -> Vec<SubCheck> {
     // RLP Encodable exists for every width with `Encoding`: short/long prefix boundary (56 octets = U448) and beyond
     rlp_enc_subs!(v, 10000; 5, 7, 8, 32);
     rlp_enc_subs!(v, 2500; 128);
+    v.extend(surface::subchecks(_ctx));
     v
 }
